@@ -35,6 +35,7 @@ type World struct {
 	prog    *ssa.Program
 	ssaPkgs []*ssa.Package
 	cg      *callgraph.Graph
+	vtaG    *callgraph.Graph
 	cgKind  string
 
 	declOf map[*types.Func]*FuncInfo
@@ -273,6 +274,20 @@ func (w *World) CallGraph() *callgraph.Graph {
 	}
 	w.cg = g
 	return g
+}
+
+// VTA always returns the VTA-refined call graph (needed where CHA's "every implementer" edges would
+// be false alarms, e.g. which concrete store flows into an interface-typed field).
+func (w *World) VTA() *callgraph.Graph {
+	if w.vtaG != nil {
+		return w.vtaG
+	}
+	prog := w.SSA()
+	w.vtaG = vta.CallGraph(ssautil.AllFunctions(prog), cha.CallGraph(prog))
+	if w.cg == nil {
+		w.cg, w.cgKind = w.vtaG, "vta(cha)"
+	}
+	return w.vtaG
 }
 
 // inModule reports whether fn is declared in the analysed module.
